@@ -197,8 +197,36 @@ func collectVarUses(p *GProgram) []*GExpr {
 }
 
 // nameEdits applies declaration/use deletions, duplications and renamings (C16's quantifier).
+// selfOrigin makes a declaration refer to itself (or to a later declaration) in its own origin:
+// the interpreter evaluates the origin before the variable exists.
+func selfOrigin(prog *GProgram, r *Rand) bool {
+	if len(prog.Vars) == 0 {
+		return false
+	}
+	i := r.Intn(len(prog.Vars))
+	d := prog.Vars[i]
+	target := d.Name
+	if i+1 < len(prog.Vars) && r.Chance(1, 3) {
+		target = prog.Vars[i+1+r.Intn(len(prog.Vars)-i-1)].Name
+	}
+	ref := &GExpr{Kind: XVar, S: target}
+	switch {
+	case d.Origin != nil && len(d.Origin.Args) > 0:
+		d.Origin.Args[r.Intn(len(d.Origin.Args))] = ref
+	case d.Type == "monetary" && r.Chance(1, 2):
+		d.Origin = &GFnCall{Name: "balance", Args: []*GExpr{ref, {Kind: XAsset, S: "USD"}}}
+	default:
+		d.Origin = &GFnCall{Name: "meta", Args: []*GExpr{ref, {Kind: XString, S: "k"}}}
+	}
+	return true
+}
+
 func nameEdits(g *Gen, prog *GProgram, r *Rand) string {
-	switch r.Intn(6) {
+	switch r.Intn(7) {
+	case 6:
+		if selfOrigin(prog, r) {
+			return "self-origin"
+		}
 	case 0:
 		return "none"
 	case 1: // delete a declaration
@@ -267,7 +295,11 @@ func (c *Ctx) checkCase(text string, kind string, extra map[string]any) *CaseInf
 
 // typeEdits: the type-breaking edits of C17's quantifier, applied to the generator's tree.
 func typeEdits(g *Gen, prog *GProgram, r *Rand) string {
-	switch r.Intn(7) {
+	switch r.Intn(8) {
+	case 7:
+		if selfOrigin(prog, r) {
+			return "self-origin"
+		}
 	case 0:
 		return "none"
 	case 1: // mis-declare a variable
